@@ -20,27 +20,6 @@ C07 as executable predicates.
 namespace Casket.ReloadSpec
 open Casket.Reload
 
-structure HObs where
-  res : String
-  fd1 : Nat
-  fd2 : Nat
-  sk1 : Nat
-  sk2 : Nat
-  p1 : String
-  p2 : String
-  mid : Option String
-  str : Option String
-deriving DecidableEq, Repr
-
-inductive HOp where
-  | reload (c : Cfg)
-  | straddle (c : Cfg)
-deriving DecidableEq, Repr
-
-def HOp.cfg : HOp → Cfg
-  | .reload c => c
-  | .straddle c => c
-
 /-- the configuration loads in this environment -/
 def valid (busy : List Nat) (c : Cfg) : Bool := !c.failSetup && c.addrs.all fun a => !busy.contains a
 
